@@ -46,7 +46,13 @@ def handle (op : String) (args : List String) : Option String :=
     let pol ← parsePol pol
     let n : Vec3 Float := ⟨nx, ny, nz⟩
     let d : Vec3 Float := ⟨x, y, z⟩
-    pure (fl (indexAlongPinned n θ φ d pol) ++ " ; " ++ fl (indexAlongSpec n θ φ d pol))
+    pure (fl (indexAlong n θ φ d pol) ++ " ; " ++ fl (indexAlongSpecClamped n θ φ d pol))
+  | "index_along_pinned", [nx, ny, nz, θ, φ, x, y, z, pol] => do
+    let nx ← parseFl nx; let ny ← parseFl ny; let nz ← parseFl nz
+    let θ ← parseFl θ; let φ ← parseFl φ
+    let x ← parseFl x; let y ← parseFl y; let z ← parseFl z
+    let pol ← parsePol pol
+    pure (fl (indexAlongPinned ⟨nx, ny, nz⟩ θ φ ⟨x, y, z⟩ pol))
   | "walkoff", [nx, ny, nz, θ, φ, x, y, z, pol] => do
     let nx ← parseFl nx; let ny ← parseFl ny; let nz ← parseFl nz
     let θ ← parseFl θ; let φ ← parseFl φ
